@@ -130,6 +130,17 @@ func DrawSimCase(ch Chooser, prop string) *SimCase {
 		}
 		return c
 	}
+	if prop == "C01" && ch.Intn(24) == 1 {
+		// NEAR-MISS: ill typed only deep inside a recursive type (one in four is the well-typed
+		// control); a sound checker rejects it, an accepted one must still run without protocol error
+		control := ch.Intn(4) == 0
+		src, desc := gen.NearMiss(ch.Intn, control)
+		c.Prog = &lang.Program{TEnv: lang.TyEnv{}}
+		c.Src = src
+		c.Mutated = "near-miss: " + desc
+		c.Runs = []sim.Config{drawRunConfig(ch, allModes, false)}
+		return c
+	}
 	c.Prog = gen.Generate(ch.Intn, c.Opts)
 	// generator stages: respell the program (deliberate name coincidences, provider-alias
 	// shadowing), respell its types (aliases, unrollings, isomorphic copies), or - for the
